@@ -30,7 +30,7 @@ CLAIMED = {
         "technique": "Coq proof (invariant over a rule-list parser model) + differential correspondence of the extracted model",
     },
     "C12": {
-        "text": ("22 theorems (Coq, no axioms) for all values, terms and oracle instances: each of the nine operators "
+        "text": ("30 theorems (Coq, no axioms) for all values, terms and oracle instances: each of the nine operators "
                  "of the Searches.search_matches model equals the documented typed rule (numeric equality for same-kind "
                  "numbers, case-insensitive boolean spellings, numeric ordering and false against non-numeric terms, "
                  "lexicographic text ordering, prefix/suffix/substring on the value's text, unanchored regex), never "
@@ -39,7 +39,15 @@ CLAIMED = {
                  "_refuted witness = known finding F12a).  The inversion clause is also stated over DOCUMENTS: the "
                  "candidate list is a Coq function of the document (SearchCands.v), the evaluator model's by_search "
                  "is proved to refine the loops on it, and C12_inversion_doc says that the inverted search yields "
-                 "exactly the candidates the plain one does not, in candidate order.  Tie: the complete operator x "
+                 "exactly the candidates the plain one does not, in candidate order.  The same is proved for EVERY "
+                 "data shape by_search is handed (SpecC12data.v: a list the evaluator built -- slice, Collector "
+                 "result -- is searched by the list loop and needs no guard; a NodeCoords is one candidate compared "
+                 "through the node it wraps; C12_inversion_data / _list_data / _coords_data / _data_dispatch), and "
+                 "C12_search_stream_data gives the stream of a search exactly however it ends: when a comparison "
+                 "raises, both searches raise the same exception at the same candidate k, the items yielded before "
+                 "it stay in the stream, and on the candidates before k the inverted search has yielded exactly "
+                 "those the plain one has not (C12_inversion_doc_raises / C12_inversion_data_raises).  Not covered: "
+                 "an exception out of the attribute path itself (not out of a comparison).  Tie: the complete operator x "
                  "haystack x needle grid (real ruamel-loaded scalars included); the loops through "
                  "Processor.get_nodes; the extracted candidate function against the harness's candidates and, "
                  "composed with the loops, against the real yields, on every run."),
@@ -48,7 +56,7 @@ CLAIMED = {
         "technique": "Coq proof (case analysis over typed-value kinds; loop lemmas) + exhaustive-grid differential correspondence",
     },
     "C13": {
-        "text": ("48 theorems (Coq, no axioms) over a model of all of keywordsearches.py: max/min (plain and inverted) "
+        "text": ("58 theorems (Coq, no axioms) over a model of all of keywordsearches.py: max/min (plain and inverted) "
                  "select exactly the extremal members / exactly the others for lists of ints, of floats, of words "
                  "(lexicographic) -- the hypothesis 'is its own typed reading' is discharged for ints and floats and, "
                  "for text, reduced to 'ast.literal_eval rejects it' --, for any Array-of-Hashes and any "
@@ -59,7 +67,15 @@ CLAIMED = {
                  "Lists mixing ints with floats are outside the property's quantifier ('same-kind'); what the code "
                  "selects on them is pinned by C13_max_min_mixed_selects (the first extremal member and the later "
                  "members of the same numeric type with an equal value), the property's statement holds under the "
-                 "guard no_cross_equal (_partial) and fails without it ([5, 5.0]: _refuted).  Tie: every keyword x "
+                 "guard no_cross_equal (_partial) and fails without it ([5, 5.0]: _refuted).  Collections mixing "
+                 "numbers with text, booleans or numeric-looking text (also outside the quantifier; the comparison "
+                 "search_matches makes across kinds is no order) are pinned for every mix, lists / Array-of-Hashes / "
+                 "hash-of-hashes, by C13_max_min_kinds_selects (+_attr, _hoh): no text member ever takes the lead and "
+                 "the first numeric extremum by typed reading is selected, or from the first text member that beats "
+                 "str() of the leading number on the first lexicographic extremum of the text members is; plus the "
+                 "later members EQUALS deems equal; the split is proved unique; oracle facts (literal_eval reads "
+                 "'True'/'False', rejects the plain text, reads the numeric-looking text as the number) are "
+                 "hypotheses; the Examples are replayed on the real code.  Tie: every keyword x "
                  "inversion x parameter form through KeywordSearches.search_matches and end to end through "
                  "Processor.get_nodes."),
         "design_ref": "DESIGN.md section 4 (C13), docs/C13.md",
@@ -266,20 +282,29 @@ CLAIMED = {
         "technique": "Coq proof (structural induction over both trees; keyed-join lemma modulo Python key equality) + differential correspondence",
     },
     "C03": {
-        "text": ("18 theorems (Coq, no axioms) over a model of set_value / _apply_change / _update_node with its "
+        "text": ("35 theorems (Coq, no axioms) over a model of set_value / _apply_change / _update_node with its "
                  "whole-document identity-driven recursion and Nodes.make_new_node / wrap_type: the recursion "
                  "equals a pointwise substitution at the addressed position plus true aliases - as mapping values, "
                  "sequence elements and (since the repair 7612ed9) mapping KEYS (C03_set_exact, frame and pointwise "
                  "lemmas); a change that would rename an alias key onto an existing key is refused with a "
                  "DuplicateKey YAML Path error and modifies nothing (C03_key_collision_refused, every document; "
-                 "formerly known finding F24); well-formedness is preserved, a failing "
-                 "change leaves the document as it was, and any completed history of Set / Create / Delete "
-                 "operations refines a plain-data model over Doc.erase (C03_history_partial: replacements at "
-                 "locations, re-filed alias keys, removals, appended children; the guard no longer excludes alias "
-                 "keys nor - C04 F15 repaired - any located Delete; [name()] renames and matched set members stay "
-                 "outside).  The matched coordinates are inputs obtained from the real Processor.  Tie: "
+                 "formerly known finding F24); a [name()] key rename files the entry at the first key == parentref "
+                 "under the new name, place and value kept, and refuses an existing name with DuplicateKey "
+                 "(C03_rename_exact, every case of the CommentedMap branch); a failing "
+                 "change leaves the document as it was, and any completed history of Set (renames included) / "
+                 "Create / Delete operations refines a plain-data model over Doc.erase (C03_history: replacements at "
+                 "locations, re-filed keys, removals, appended children).  The invariants of a loaded document "
+                 "(doc_inv: containers carry the anchor attribute and sit at one place, keys pairwise different, "
+                 "keys / set members scalars) are a hypothesis on the FIRST document only and proved to survive "
+                 "every Set, Delete (C03_wf_preserved_delete) and Create (C03_wf_preserved_create: fresh "
+                 "identities); the guard that remains per change is alias_clean (the matched node is no set member "
+                 "and is one object) and, per Delete, that every coordinate locates a node.  End to end with the "
+                 "evaluator model (C03_set_end_to_end, C03_history_end_to_end_inv: the coordinates of every step "
+                 "are the locations of the nodes the path semantics selects there; guards inherited from C01 / C02 "
+                 "and, for a Create step, a bound of the model's identity counter).  Tie: "
                  "histories of length <= 4 (quick) / 6 (thorough) step by step against the real code, with a "
-                 "ruamel dump and strict reload after every step, plus a structured stream for aliases used as keys."),
+                 "ruamel dump and strict reload after every step, plus a structured stream for aliases used as keys; "
+                 "every step a second time with the coordinates gathered by the evaluator model instead of the real read side."),
         "design_ref": "DESIGN.md section 4 (C03), docs/C03.md",
         "note": NOTE_COMMON + "  ruamel's dump/reload is exercised by the judge on every step, not modelled; float() and literal_eval are oracles.",
         "technique": "Coq proof (substitution lemma over an identity-addressed document model; refinement to plain data by induction over the history) + differential correspondence",
@@ -415,7 +440,10 @@ CLAIMED = {
                  "resolves in the new document to the supplied value and "
                  "sequences are padded exactly to the requested index (C09_create_resolves_partial / "
                  "C09_create_pads_document_partial; guard = listed finding F25 tail below "
-                 "a set, _refuted witness; F10b null in the prefix is repaired and inside the theorems).  Tie: a deep snapshot (structure + identities + anchors) of the real "
+                 "a set, _refuted witness; F10b null in the prefix is repaired and inside the theorems); in SET mode the "
+                 "creation composes with _update_node on the yielded coordinate: walking the path in the final document "
+                 "reaches the node make_new_node built, holding the value in the requested format "
+                 "(C09_create_set_composes_partial, same guard; 13 theorems in the creation part).  Tie: a deep snapshot (structure + identities + anchors) of the real "
                  "document around every query; creation compared node by node with object identities."),
         "design_ref": "DESIGN.md section 4 (C09), docs/C09.md, docs/C09b.md",
         "note": NOTE_COMMON + "  Optional queries that create nodes are F16b / the creation half.",
